@@ -35,6 +35,15 @@ Section Member.
       + apply unrank_mem, NE.
   Qed.
 
+  (* row level: a space without identity-encoded categories decodes ANY warped row into the space *)
+  Lemma inverse_row_member sp : forall zs, wf_space sp = true -> forallb (fun d => negb (is_cat_identity d)) sp = true ->
+    in_space sp (inverse_row R lg pw sp zs) = true.
+  Proof.
+    induction sp as [|d sp IH]; intros zs W NI; cbn [inverse_row in_space]; [reflexivity|].
+    cbn [wf_space forallb] in W, NI. apply andb_true_iff in W as [W1 W2]. apply andb_true_iff in NI as [N1 N2].
+    apply negb_true_iff in N1. apply andb_true_iff. split; [apply inv_cell_member; assumption| apply IH; assumption].
+  Qed.
+
   Lemma cell_member d x : wf_dim d = true -> in_dim d x = true -> in_dim d (inv_cell R lg pw d (tr_cell R lg d x)) = true.
   Proof.
     intros W I. destruct (is_cat_identity d) eqn:CI; [|apply inv_cell_member; assumption].
